@@ -108,6 +108,14 @@ func (in *Interp) formatValue(fr *frame, verb byte, flags string, arg Value) (St
 		v, t = itf.v, itf.t
 	}
 	// error / Stringer for %v %s %q
+	if t != nil && in.fmtLazy && (verb == 'v' || verb == 's' || verb == 'q') {
+		// inside Errorf: messages built from other errors / Stringers are never inspected; keep them opaque
+		if _, isStr := v.(Str); !isStr {
+			if _, isT := v.(*T); !isT {
+				return Str{}, false
+			}
+		}
+	}
 	if t != nil && (verb == 'v' || verb == 's' || verb == 'q') {
 		if _, isPoison := v.(Poison); isPoison {
 			return Str{}, false
@@ -160,6 +168,34 @@ func (in *Interp) formatValue(fr *frame, verb byte, flags string, arg Value) (St
 		return x, true
 	case *T:
 		if !x.IsConst() {
+			if x.w != 0 && (verb == 'd' || verb == 'v') {
+				// symbolic decimal: fork on the digit count, then pad
+				signed := t != nil && isSigned(t)
+				x64 := x
+				if x.w < 64 {
+					if signed {
+						x64 = in.tb.SExt(x, 64)
+					} else {
+						x64 = in.tb.ZExt(x, 64)
+					}
+				}
+				s := in.formatInt(x64, signed).(Str)
+				if flags == "" {
+					return s, true
+				}
+				zero := strings.HasPrefix(flags, "0")
+				if wdt, err := strconv.Atoi(strings.TrimPrefix(flags, "0")); err == nil && len(s.b) > 0 && !(s.b[0].IsConst() && s.b[0].k == '-') {
+					pad := in.tb.bytes[' ']
+					if zero {
+						pad = in.tb.bytes['0']
+					}
+					b := s.b
+					for len(b) < wdt {
+						b = append([]*T{pad}, b...)
+					}
+					return Str{b: b}, true
+				}
+			}
 			return Str{}, false
 		}
 		if x.w == 0 {
@@ -298,8 +334,13 @@ func init() {
 		return s
 	})
 	reg("fmt.Errorf", func(in *Interp, fr *frame, fn *ssa.Function, args []Value) Value {
+		in.fmtLazy = true
 		s, w := in.sprintf(fr, args[0].(Str), args[1].([]Value))
+		in.fmtLazy = false
 		return in.mkError(s, w)
+	})
+	reg("(*strconv.NumError).Error", func(in *Interp, fr *frame, fn *ssa.Function, args []Value) Value {
+		return Str{opaque: true, otag: "strconv.NumError"}
 	})
 	reg("fmt.Sprint", func(in *Interp, fr *frame, fn *ssa.Function, args []Value) Value {
 		return in.sprint(fr, args[0].([]Value), false, false)
